@@ -1029,8 +1029,12 @@ class Builtins:
     def match_pattern(self, it, pat, subj, fr) -> bool:
         if isinstance(pat, ast.MatchAs):
             if pat.pattern is not None:
+                self._narrowed = None
                 if not self.match_pattern(it, pat.pattern, subj, fr):
                     return False
+                if isinstance(pat.pattern, ast.MatchClass) and getattr(self, "_narrowed", None) is not None:
+                    subj = self._narrowed      # `case C() as x`: x has the narrower static type
+                self._narrowed = None
             if pat.name is not None:
                 fr.env[pat.name] = subj
             return True
@@ -1078,6 +1082,7 @@ class Builtins:
                 if isinstance(subj, SV) and isinstance(subj.ty, TObj) and it.w.is_subclass(cls.ci.qname, subj.ty.cls):
                     subj = SV(TObj(cls.ci.qname, exact=len(it.w.subclasses(cls.ci.qname)) == 1), subj.term)
                 names = [f.name for f in it.w.all_fields(cls.ci.qname) if f.init]
+                narrowed_here = subj
                 for i, p in enumerate(pat.patterns):
                     if i >= len(names):
                         raise Unsupported("too many positional sub-patterns")
@@ -1088,6 +1093,7 @@ class Builtins:
                     sub = it.getattr(subj, kw, fr)
                     if not self.match_pattern(it, p, sub, fr):
                         return False
+                self._narrowed = narrowed_here
                 return True
             raise Unsupported(f"class pattern {cls}")
         if isinstance(pat, ast.MatchSequence):
